@@ -36,10 +36,9 @@ BASE = 1593820800   # 2020-07-04T00:00:00Z
 FAR = 7274016000    # 2200-07-04T00:00:00Z
 H = 3600
 
-KNAMES = {1: 'three-or-more-time-windows-any-instead-of-all',
-          2: 'replacement-or-service-task-time-windows-unchecked',
-          3: 'required-offset-break-with-unparsable-shift-start-panics-in-validation',
-          4: 'shift-start-latest-unparsable-unchecked-panics-in-reader',
+# K1-K3 (windows(2).any / E1103 skipping replacement+service tasks / check_e1303 parse_time panic) were repaired in /repo
+# (c324ed4, d5aa3e7, 89050ae): no longer known classes, a recurrence is reported as a violation.
+KNAMES = {4: 'shift-start-latest-unparsable-unchecked-panics-in-reader',
           5: 'optional-break-offset-list-arity-unchecked-panics-in-reader',
           6: 'empty-capacity-vector-unchecked-panics-in-reader',
           7: 'more-than-8-load-dimensions-unchecked-panics',
@@ -611,11 +610,10 @@ def dev_profiles(rng, d):
 
 
 DEVIATIONS = [dev_dup_job_id, dev_reserved_id, dev_demand_presence, dev_unbalance, dev_unbalance, dev_pd_times, dev_pd_times, dev_pd_times,
-              dev_pd_times, dev_empty_job, dev_empty_task_list, dev_duration, dev_neg_demand, dev_dup_type, dev_shift_times,
+              dev_pd_times, dev_rs_times, dev_rs_times, dev_pd_three, dev_pd_three, dev_offset_bad_start, dev_empty_job, dev_empty_task_list, dev_duration, dev_neg_demand, dev_dup_type, dev_shift_times,
               dev_shift_times, dev_shift_times, dev_breaks, dev_breaks, dev_breaks, dev_reloads, dev_reloads, dev_costs, dev_profiles]
 # deviations that (mostly) land in a known deviation class: kept, but rarer
-KNOWN_DEVIATIONS = [dev_rs_times, dev_rs_times, dev_pd_three, dev_pd_three, dev_empty_vectors, dev_over8, dev_capacity_empty,
-                    dev_offset_bad_start]
+KNOWN_DEVIATIONS = [dev_empty_vectors, dev_over8, dev_capacity_empty]
 
 
 def gen_doc_case(rng):
@@ -907,18 +905,6 @@ def py_spec(d):
 def py_known(d):
     out = []
     jobs, vs = d['jobs'], d['vehicles']
-    k1 = any(p['times'] is not None and len(p['times']) >= 3 for j in jobs for t in (j['pickups'] or []) + (j['deliveries'] or [])
-             for p in t['places'])
-    k1 = k1 or any(len(v['shifts']) >= 3 for v in vs)
-    k1 = k1 or any((s['breaks'] is not None and len(break_windows(s, s['breaks'])) >= 3)
-                   or (s['reloads'] is not None and len(reload_windows(s['reloads'])) >= 3) for v in vs for s in v['shifts'])
-    if k1:
-        out.append(1)
-    if any(p['times'] is not None and not times_ok(p['times']) for j in jobs for t in (j['replacements'] or []) + (j['services'] or [])
-           for p in t['places']):
-        out.append(2)
-    if any(s['earliest'][1] is None and any(b[0] == 'roff' for b in (s['breaks'] or [])) for v in vs for s in v['shifts']):
-        out.append(3)
     if any(s['latest'] is not None and s['latest'][1] is None for v in vs for s in v['shifts']):
         out.append(4)
     if any(b[0] == 'ooff' and len(b[1]) != 2 for v in vs for s in v['shifts'] for b in (s['breaks'] or [])):
@@ -1126,11 +1112,11 @@ def shrink_candidates(c):
 
 
 MANIFEST_TEXT = ('Machine-checked proof (Coq, no axioms) over an executable model of the pragmatic validation (all E11xx job rules, all E13xx '
-                 'vehicle rules, E1500/1501/1504/1505 as written in validation/*.rs, including the windows(2).any quirk, the eager evaluation of '
-                 'every rule and the parse_time unwraps) and of the unwraps/asserts of the reader behind it: outside ten structurally defined known '
+                 'vehicle rules, E1500/1501/1504/1505 as written in validation/*.rs, including the eager evaluation of '
+                 'every rule and the parse_time unwraps) and of the unwraps/asserts of the reader behind it: outside seven structurally defined known '
                  'deviation classes, reading never panics, a document is accepted iff it breaks none of the documented rules (written '
                  'independently from the error index page) and the reported codes are exactly the broken rules; each known class has a '
-                 'machine-checked witness (eight panics, two wrongly accepted documents, one wrongly reported code). The rule tables are '
+                 'machine-checked witness (six panics, one wrongly reported code); three earlier classes were repaired in /repo and are covered by the theorems now. The rule tables are '
                  're-extracted from the Rust sources and the documentation on every run and the completeness theorem is re-proved against them. '
                  'Model and spec are tied to /repo on every run by evaluating them inside Coq (vm_compute) on generated documents and diffing '
                  'with the real ValidationContext::validate and String::read_pragmatic under catch_unwind.')
